@@ -31,6 +31,8 @@ def run(sid, n):
         env = dict(os.environ, PYTHONPATH=wt, OMP_NUM_THREADS='1', OPENBLAS_NUM_THREADS='1', MKL_NUM_THREADS='1')
         subprocess.run(['/venv/bin/python', '-m', 'pytest', '-q', '-p', 'no:cacheprovider', '--timeout=900', '--continue-on-collection-errors', '-n', str(n), f'--junitxml={jx}'], cwd=wt, env=env, capture_output=True, text=True)
         passed = set()
+        if not os.path.isfile(jx):
+            return sid, 'suite run was killed (no junit file)', ['?']
         for tc in ET.parse(jx).iter('testcase'):
             if not any(c.tag in ('failure', 'error', 'skipped') for c in tc):
                 passed.add(f"{tc.get('classname')}::{tc.get('name')}")
@@ -67,6 +69,15 @@ def main():
     if '--n' in a:
         i = a.index('--n'); n = int(a[i + 1]); del a[i:i + 2]
     ids = a or sorted(os.listdir(os.path.join(VERIF, 'seeded')))
+    if not a:
+        # skip the seeds that already have a verdict from a complete run
+        def done(sid):
+            try:
+                return json.load(open(os.path.join(VERIF, 'seeded', sid, 'meta.json'))).get('existing_suite', {}).get('status') in ('ok', 'FAILS')
+            except Exception:
+                return False
+        ids = [i for i in ids if not done(i)]
+        print('to run:', len(ids), flush=True)
     with cf.ThreadPoolExecutor(jobs) as ex:
         for sid, status, missing in ex.map(lambda s: run(s, n), ids):
             print(sid, status, len(missing), missing[:5], flush=True)
